@@ -35,6 +35,30 @@ pub struct Step {
     /// only for Mode::Warm: the other program this process compiled earlier
     #[serde(default)]
     pub warm_src: Option<String>,
+    /// where the source text sits in memory: address of its first byte modulo 8 (a literal, an
+    /// `include_str!`, a slice of a received message are not aligned the way a `String` is)
+    #[serde(default)]
+    pub src_offset: u8,
+}
+
+/// A copy of `src` whose first byte sits at an address that is `off` modulo 8.
+struct Placed {
+    buf: Vec<u8>,
+    start: usize,
+    len: usize,
+}
+
+impl Placed {
+    fn new(src: &str, off: u8) -> Placed {
+        let mut buf = vec![b' '; src.len() + 16];
+        let base = buf.as_ptr() as usize % 8;
+        let start = (off as usize % 8 + 8 - base) % 8;
+        buf[start..start + src.len()].copy_from_slice(src.as_bytes());
+        Placed { buf, start, len: src.len() }
+    }
+    fn as_str(&self) -> &str {
+        std::str::from_utf8(&self.buf[self.start..self.start + self.len]).unwrap_or("")
+    }
 }
 
 #[derive(Clone, Debug, Serialize, Deserialize, PartialEq, Eq)]
@@ -98,16 +122,15 @@ fn run_steps(prog: &ProgSpec, steps: &[Step]) -> Vec<(Outcome, Vec<ProbeRec>)> {
     let _ = drain_probes();
     for s in steps {
         let consts = build_consts(&prog.consts, &s.perm, s.cap);
+        let placed = Placed::new(if s.mode == Mode::Warm { s.warm_src.as_deref().unwrap_or("") } else { &prog.src }, s.src_offset);
+        let src = placed.as_str();
         let o = match s.mode {
-            Mode::Src => outcome_of(guarded(|| compile_src(&prog.src, &s.fn_name, consts, s.opts, false))).0,
-            Mode::Lib => outcome_of(guarded(|| compile_src(&prog.src, &s.fn_name, consts, s.opts, true))).0,
-            Mode::Warm => {
-                let other = s.warm_src.clone().unwrap_or_default();
-                outcome_of(guarded(|| compile_src(&other, "main", std::collections::HashMap::new(), Opts { register: false, dedup: true }, false))).0
-            }
+            Mode::Src => outcome_of(guarded(|| compile_src(src, &s.fn_name, consts, s.opts, false))).0,
+            Mode::Lib => outcome_of(guarded(|| compile_src(src, &s.fn_name, consts, s.opts, true))).0,
+            Mode::Warm => outcome_of(guarded(|| compile_src(src, "main", std::collections::HashMap::new(), Opts { register: false, dedup: true }, false))).0,
             Mode::Typed => {
                 if typed.is_none() {
-                    let r = guarded(|| garble_lang::check(&prog.src));
+                    let r = guarded(|| garble_lang::check(src));
                     typed = Some(match r {
                         Ok(Ok(tp)) => Ok(tp),
                         Ok(Err(e)) => Err(outcome_of(Ok(Err(e))).0),
@@ -415,7 +438,7 @@ impl Plan {
 }
 
 fn simple_step(fn_name: &str, opts: Opts) -> Step {
-    Step { fn_name: fn_name.into(), opts, mode: Mode::Src, perm: vec![], cap: 0, warm_src: None }
+    Step { fn_name: fn_name.into(), opts, mode: Mode::Src, perm: vec![], cap: 0, warm_src: None, src_offset: 0 }
 }
 
 fn draw_party(p: &mut Prng, fns: &[String], nconsts: usize, light: bool) -> PartySpec {
@@ -451,7 +474,7 @@ fn draw_party(p: &mut Prng, fns: &[String], nconsts: usize, light: bool) -> Part
                 p.shuffle(&mut perm);
             }
             let cap = if p.chance(1, 2) { 0 } else { p.below(64) as usize };
-            Step { fn_name: f, opts: o, mode, perm, cap, warm_src: None }
+            Step { fn_name: f, opts: o, mode, perm, cap, warm_src: None, src_offset: if p.chance(1, 2) { p.below(8) as u8 } else { 0 } }
         })
         .collect();
     PartySpec { keys, steps, process: false, alloc_limit: None, env_flip: vec![], build: None, cpus: None }
@@ -499,7 +522,7 @@ pub fn adversarial_warm(src: &str) -> String {
 }
 
 fn warm_step(src: String) -> Step {
-    Step { fn_name: "main".into(), opts: Opts { register: false, dedup: true }, mode: Mode::Warm, perm: vec![], cap: 0, warm_src: Some(src) }
+    Step { fn_name: "main".into(), opts: Opts { register: false, dedup: true }, mode: Mode::Warm, perm: vec![], cap: 0, warm_src: Some(src), src_offset: 0 }
 }
 
 pub fn make_world(plan: &Plan, seed: u64, idx: u64) -> (World, String, Prng) {
@@ -578,7 +601,7 @@ pub fn make_world(plan: &Plan, seed: u64, idx: u64) -> (World, String, Prng) {
         // de-duplication, and twice more from the program it type-checked once
         for party in parties.iter_mut() {
             let f = fns[0].clone();
-            let st = |register: bool, dedup: bool, mode: Mode| Step { fn_name: f.clone(), opts: Opts { register, dedup }, mode, perm: vec![], cap: 0, warm_src: None };
+            let st = |register: bool, dedup: bool, mode: Mode| Step { fn_name: f.clone(), opts: Opts { register, dedup }, mode, perm: vec![], cap: 0, warm_src: None, src_offset: 0 };
             party.steps = vec![st(false, true, Mode::Src), st(false, true, Mode::Src), st(false, false, Mode::Src), st(true, true, Mode::Typed), st(false, true, Mode::Typed)];
         }
     }
@@ -592,7 +615,7 @@ pub fn make_world(plan: &Plan, seed: u64, idx: u64) -> (World, String, Prng) {
         // that overflowed was thinned the same way everywhere
         for party in parties.iter_mut() {
             let f = fns[0].clone();
-            let st = Step { fn_name: f, opts: Opts { register: false, dedup: true }, mode: Mode::Src, perm: vec![], cap: 0, warm_src: None };
+            let st = Step { fn_name: f, opts: Opts { register: false, dedup: true }, mode: Mode::Src, perm: vec![], cap: 0, warm_src: None, src_offset: 0 };
             party.steps = vec![st.clone(), st];
         }
     }
@@ -725,6 +748,28 @@ fn same_class(f: &Finding, class: &str) -> bool {
 }
 
 /// Shrink a failing world: simple two-party histories if possible, then ddmin over source lines.
+/// Every `/*` outside a line comment has its `*/` (nested comments count).
+pub fn comments_balanced(src: &str) -> bool {
+    let b = src.as_bytes();
+    let (mut i, mut level) = (0usize, 0usize);
+    while i < b.len() {
+        if level == 0 && b[i] == b'/' && b.get(i + 1) == Some(&b'/') {
+            while i < b.len() && b[i] != b'\n' {
+                i += 1;
+            }
+        } else if b[i] == b'/' && b.get(i + 1) == Some(&b'*') {
+            level += 1;
+            i += 2;
+        } else if level > 0 && b[i] == b'*' && b.get(i + 1) == Some(&b'/') {
+            level -= 1;
+            i += 2;
+        } else {
+            i += 1;
+        }
+    }
+    level == 0
+}
+
 pub fn minimise(w: &World, f: &Finding, p: &mut Prng) -> (World, Finding) {
     let class = f.class.clone();
     if w.concurrent.is_some() {
@@ -789,6 +834,11 @@ pub fn minimise(w: &World, f: &Finding, p: &mut Prng) -> (World, Finding) {
     }
     // 2. ddmin over lines; predicate: some pair among the fixed probes still disagrees in the same class
     let test = |src: &str, consts: &[ConstSpec]| -> Option<(World, Finding)> {
+        // never hand the front end an unterminated block comment: on this tree the scanner loops
+        // forever on one (DESIGN.md 8; C07's business), and a minimiser must not hang the check
+        if !comments_balanced(src) {
+            return None;
+        }
         let cand = World {
             program: ProgSpec { name: w.program.name.clone(), src: src.to_string(), consts: consts.to_vec() },
             parties: fixed_probes.clone(),
